@@ -482,7 +482,8 @@ def run(ctx):
         opsS = [s for s in uniq(gs.printed) if len(s["acts"]) >= 2]
         scheds = uniq(gk.printed)
         cuts = [s for s in scheds if s["cut"]]
-        plain = [s for s in scheds if not s["park"] and not s["fault"] and not s["cut"]]
+        denies = [s for s in scheds if s["deny"]]
+        plain = [s for s in scheds if not s["park"] and not s["fault"] and not s["cut"] and not s["deny"]]
         parks = [s for s in scheds if s["park"]]
         faults = [s for s in scheds if s["fault"]]
         ctx.log("generated: %d single-action operations x <=1 aliased ancestor (BFS, exhaustive), %d operations of the focused "
@@ -498,7 +499,7 @@ def run(ctx):
             condS = [o for o in opsS if has_cond(o)]
             reuseS = [o for o in opsS if o["reuse"]]
             restS = [o for o in opsS if not has_cond(o) and not o["reuse"]]
-            chosen = plain1[:140] + alias1[:120] + opsP + condS[:110] + reuseS[:90] + restS[:200]
+            chosen = plain1[:110] + alias1[:100] + opsP + condS[:90] + reuseS[:70] + restS[:150]
         else:
             chosen = ops1 + opsP + opsS[:2000]
         if os.environ.get("C10_OPS"):  # developer knob: "<bfs>,<sim>"
@@ -507,9 +508,9 @@ def run(ctx):
 
         def pick_scheds():
             if quick:
-                return rng.sample(plain, 9) + rng.sample(parks, 4) + rng.sample(faults, 3) + rng.sample(cuts, 3)
+                return rng.sample(plain, 7) + rng.sample(parks, 3) + rng.sample(faults, 2) + rng.sample(cuts, 2) + rng.sample(denies, 2)
             # all 120 orders over 5 indices (the driver restricts them to the observed exchanges and de-duplicates)
-            return plain + rng.sample(parks, 12) + rng.sample(faults, 10) + rng.sample(cuts, 10)
+            return plain + rng.sample(parks, 12) + rng.sample(faults, 10) + rng.sample(cuts, 10) + rng.sample(denies, 12)
         # different generator states can print the same operation (e.g. creation order of the fragments)
         seen_text, uniq_chosen = set(), []
         for st in chosen:
@@ -520,7 +521,7 @@ def run(ctx):
         chosen = uniq_chosen
         cases = []
         for i, st in enumerate(chosen):
-            cases.append(make_case("c%05d" % i, st, pick_scheds(), 14 if quick else 70))
+            cases.append(make_case("c%05d" % i, st, pick_scheds(), 14 if quick else 80))
         st_by_id = {c["id"]: st for c, st in zip(cases, chosen)}
     by_id = {c["id"]: c for c in cases}
 
@@ -574,7 +575,7 @@ def run(ctx):
         raise lib.Inconclusive("%d runs were not judged by TLC (e.g. %s)" % (len(missing), missing[0]))
 
     # ---- verdicts ------------------------------------------------------------------------------------------------
-    n_runs = n_gated = n_faulted = n_parked = n_parkrel = n_cmp = n_unreal = n_stream = n_cut = 0
+    n_runs = n_gated = n_faulted = n_parked = n_parkrel = n_cmp = n_unreal = n_stream = n_cut = n_deny = 0
     orders = set()
     distinct = set()
     tree_bad = groups_bad = 0
@@ -589,6 +590,8 @@ def run(ctx):
             n_gated += 1
         if row.get("cut"):
             n_cut += 1
+        if sch and sch.get("deny"):
+            n_deny += 1
         if row["applied"]:
             n_faulted += 1
         if row["parked"]:
@@ -601,9 +604,9 @@ def run(ctx):
             n_unreal += 1
         if len(row["frames"]) > 1:
             n_stream += 1
-        orders.add((row["case"], tuple(row["order"] or []), sch and sch["park"], sch and sch["parkAt"], sch and sch["fault"], sch and sch["faultAt"], sch and sch.get("cut"), sch and sch.get("cutAt")))
+        orders.add((row["case"], tuple(row["order"] or []), sch and sch["park"], sch and sch["parkAt"], sch and sch["fault"], sch and sch["faultAt"], sch and sch.get("cut"), sch and sch.get("cutAt"), sch and sch.get("deny"), sch and sch.get("dmode")))
         if len(row["frames"]) > 1:
-            distinct.add(lib.sha([c["query"], c["nulls"], row["order"], sch and [sch["park"], sch["parkAt"], sch["fault"], sch["faultAt"], sch.get("cut"), sch.get("cutAt")]]))
+            distinct.add(lib.sha([c["query"], c["nulls"], row["order"], sch and [sch["park"], sch["parkAt"], sch["fault"], sch["faultAt"], sch.get("cut"), sch.get("cutAt"), sch.get("deny"), sch.get("dmode")]]))
         pl = plans.get(rid)
         if pl and not pl["tree"]:
             tree_bad += 1
@@ -614,7 +617,7 @@ def run(ctx):
             v = v + ["Panic"]
         for tag in v:
             sub, detail = classify(tag, row, info)
-            key = "%s|%s|%s|nulls=%s|%s" % (tag, "faulted" if row["applied"] else ("cut" if row.get("cut") else "nofault"), sub, ",".join(c["nulls"]), c["query"])
+            key = "%s|%s|%s|nulls=%s|%s" % (tag, "faulted" if (row["applied"] or (sch and sch.get("deny"))) else ("cut" if row.get("cut") else "nofault"), sub, ",".join(c["nulls"]), c["query"])
             what = "%s violated (%s %s): %s; operation %s vars=%s nulls=%s schedule=%s realised order=%s" % (
                 tag, sub, detail, EXPLAIN.get(tag, ""), c["query"], c["vars"] or "{}", c["nulls"], json.dumps(sch), row["order"])
             rejected_runs[tag + "|" + sub] = rejected_runs.get(tag + "|" + sub, 0) + 1
@@ -706,6 +709,7 @@ def run(ctx):
         "runs_with_reference_comparison": n_cmp,
         "runs_with_injected_failure": n_faulted,
         "runs_with_client_disconnect": n_cut,
+        "runs_with_authorization_denial": n_deny,
         "runs_with_writer_parked": n_parked,
         "runs_with_exchange_completed_while_parked": n_parkrel,
         "unrealised_schedules": n_unreal,
